@@ -11,10 +11,11 @@ not acknowledged leaves either value acceptable).  No model is run in lock-step;
 survival over any new route that still lists a surviving holder; C13: survivors stay listed) are about the
 DMap and routing models tied by the cluster and routing streams."""
 from streams.cluster import hx
+from streams.repair import parse_wb
 
 NO_MODEL = True
 HEADER = 3
-REQUIRED_SHAPES = ["primary_owner_lost", "backup_owner_lost", "coordinator_lost", "abrupt", "graceful", "killed_during_put", "killed_during_delete",
+REQUIRED_SHAPES = ["counter_continues_after_failover", "primary_owner_lost", "backup_owner_lost", "coordinator_lost", "abrupt", "graceful", "killed_during_put", "killed_during_delete",
                    "value_survived", "delete_survived", "read_from_every_survivor", "two_members_lost", "ops_after_failover"]
 
 
@@ -58,10 +59,14 @@ class Oracle:
             self.alive = set(range(int(self.cfg["n"])))
             self.exp, self.route, self.lost, self.after = {}, {}, 0, False
             self.destroyed = False
+            self.cnt = {}
             return None
         if name == "c.own":
             p, b = reply.split("pick=")[1].split()[0].split("/")
             self.route[a[1]] = (int(p.split(",")[-1]), [int(x) for x in b.split(",")] if b != "-" else [])
+            return None
+        if name == "c.unreach":
+            self.hit("unreachable_backup_owner_then_lost")
             return None
         if name in ("c.stop", "c.kill"):
             self.lose(int(a[0]), name)
@@ -70,8 +75,20 @@ class Oracle:
             if reply == "not-converged":
                 self.hit("not_converged")
             return None
+        if name == "wb":
+            pend = self.__dict__.pop("pending_put", None)
+            if pend and pend[0] == a[1]:
+                W = int(self.cfg.get("w", 1))
+                n = sum(1 for (m, kind), c in parse_wb(reply).items() if m in self.alive and c[0] == pend[1])
+                self.hit("copies_counted_after_failover")
+                if n < W:
+                    return ("a Put acknowledged with WriteQuorum=%d after the loss of %d member(s) left %d cop%s of the value in the cluster "
+                            "(a promoted owner that is its own backup owner stores two: primary and backup fragment)" % (W, self.lost, n, "y" if n == 1 else "ies"))
+            return None
         if name == "c.put":
             key, val = a[3], a[4]
+            if reply == "ok" and self.after:
+                self.pending_put = (key, val)
             if reply == "ok":
                 self.set(key, val)
                 if self.after:
@@ -106,7 +123,22 @@ class Oracle:
                 else:
                     self.exp.setdefault(key, {None}).add(None)
             return None
+        if name == "c.incr":
+            key, d = a[3], int(a[4])
+            cnt = self.__dict__.setdefault("cnt", {})
+            if not reply.lstrip("-").isdigit():
+                cnt.pop(key, None)          # not acknowledged: the counter is unknown from here on
+                return None if not self.after or reply in ("neterr", "wq", "down") else "Incr after re-stabilisation failed: %s" % reply
+            if key in cnt and int(reply) != cnt[key] + d:
+                return "Incr of a counter with acknowledged value %d by %d returned %s%s" % (
+                    cnt[key], d, reply, " (after the loss of %d member(s): the promoted owner holds the counter as a backup copy)" % self.lost if self.after else "")
+            if self.after and key in cnt:
+                self.hit("counter_continues_after_failover")
+            cnt[key] = int(reply)
+            return None
         if name == "c.destroy":
+            cnt = self.__dict__.setdefault("cnt", {})
+            cnt.clear()
             if reply != "ok":
                 return "Destroy after the failover: %s" % reply[:80]
             self.destroyed = True
@@ -157,6 +189,9 @@ class Gen:
         r = self.rng
         R = r.choice([2, 2, 3])
         n = r.choice([2, 3, 3, 4, 5]) if R == 2 else r.choice([3, 3, 4, 5])      # N >= R; N = R keeps a promoted backup owner listed as its own backup
+        unreach_mode = R == 3 and r.random() < 0.6
+        if unreach_mode:
+            n = r.choice([4, 5])
         parts = r.choice([7, 11])
         yield "watchdog 300s"
         yield "clock 0"
@@ -169,12 +204,18 @@ class Gen:
         keys = [hx(b"f%d" % i) for i in range(10)]
         ver = [0]
 
+        ckeys = [hx(b"cnt%d" % i) for i in range(3)]
+
         def wl(k):
             out = []
             for _ in range(k):
                 key = r.choice(keys)
                 ver[0] += 1
                 m = r.choice(alive)
+                if r.random() < 0.15:
+                    # counters: an Incr continues from the last acknowledged value, wherever the newest copy lives
+                    out.append("c.incr %s %d dm %s %d" % (r.choice(["emb", "raw"]), m, r.choice(ckeys), r.choice([1, 5])))
+                    continue
                 if r.random() < 0.75:
                     out.append("c.put %s %d dm %s %s" % (r.choice(["emb", "raw"]), m, key, hx(b"v%d" % ver[0] + b"y" * r.choice([0, 40])) if r.random() > 0.1 else hx(b"")))
                 else:
@@ -183,12 +224,43 @@ class Gen:
 
         for op in wl(nops or 30):
             yield op
+        for ck in ckeys:
+            yield "c.incr emb %d dm %s %d" % (r.choice(alive), ck, r.choice([2, 10]))
         owners = {}
         for key in keys:
             rep = yield "c.own dm %s" % key
             p, b = rep.split("pick=")[1].split()[0].split("/")
             owners[key] = (int(p.split(",")[-1]), [int(x) for x in b.split(",")] if b != "-" else [])
         budget = r.randint(1, R - 1)
+        if unreach_mode:
+            # a backup owner stops answering but is still a member (nobody has noticed yet): Puts are acknowledged with the
+            # copies on the owner and on the OTHER backup owner.  Then that member and the primary owner are lost for good
+            # (two = R - 1 members): the other backup owner has everything.
+            key = r.choice(keys)
+            o, bs = owners[key]
+            if len(bs) >= 2 and o in alive and bs[0] in alive:
+                b1 = bs[0]
+                yield "c.unreach %d" % b1
+                for _ in range(6):
+                    ver[0] += 1
+                    kk = r.choice([key, key, r.choice(keys)])
+                    yield "c.put emb %d dm %s %s" % (r.choice([m for m in alive if m != b1]), kk, hx(b"u%d" % ver[0]))
+                yield "c.kill %d" % b1
+                alive.remove(b1)
+                rep = yield "c.converge"
+                if rep == "not-converged":
+                    return
+                yield "c.stop %d" % o
+                alive.remove(o)
+                rep = yield "c.converge"
+                if rep == "not-converged":
+                    return
+                yield "c.sync"
+                yield "c.sync"
+                for k2 in keys:
+                    for m in alive:
+                        yield "c.get emb %d dm %s" % (m, k2)
+                budget = 0
         for _ in range(budget):
             # who: an owner, a backup owner, the coordinator (oldest), anybody
             key = r.choice(keys)
@@ -227,8 +299,12 @@ class Gen:
                 rep = yield "c.own dm %s" % key
                 p, b = rep.split("pick=")[1].split()[0].split("/")
                 owners[key] = (int(p.split(",")[-1]), [int(x) for x in b.split(",")] if b != "-" else [])
+            for ck in ckeys:
+                yield "c.incr %s %d dm %s %d" % (r.choice(["emb", "raw"]), r.choice(alive), ck, r.choice([1, 5]))
             for op in wl(8):
                 yield op
+                if op.startswith("c.put"):
+                    yield "wb dm %s" % op.split()[4]        # how many copies did the acknowledged Put leave?
             for key in keys:
                 yield "c.get %s %d dm %s" % (r.choice(["emb", "raw"]), r.choice(alive), key)
         if r.random() < 0.85:
